@@ -220,10 +220,12 @@ def inlined(P, key, policy=None, _cache={}):
     return body
 
 
-def _const_env(stmts):
-    """constants held by plain locals at the end of a statement list (very small forward pass): integers / bools, and
-    ('V', name) for a local that was just built as the enum variant `name`"""
-    env = {}
+def _const_env(stmts, env=None):
+    """constants held by plain locals at the end of a statement list (very small forward pass): integers / bools,
+    ('V', name) for a local that was just built as the enum variant `name`, ('call', bb, positive) for a boolean that is
+    the (possibly negated) result of the call ending block bb; keys (local, variant|None, field, ..) hold what is known
+    about parts of a local.  `env` is the knowledge on entry (copied)."""
+    env = dict(env) if env else {}
     for st in stmts:
         if st.get("k") != "assign":
             continue
@@ -262,7 +264,9 @@ def _const_env(stmts):
             o = rv["x"]
             if o.get("k") in ("copy", "move") and not o["place"]["p"]:
                 v = env.get(o["place"]["l"])
-                if v is not None and not isinstance(v, tuple):
+                if isinstance(v, tuple) and v and v[0] == "call":
+                    val = ("call", v[1], not v[2])
+                elif v is not None and not isinstance(v, tuple):
                     val = 0 if v else 1
         elif rv["k"] == "aggregate" and rv.get("agg") in ("adt", "tuple"):
             if rv.get("agg") == "adt" and rv.get("variant"):
@@ -270,6 +274,8 @@ def _const_env(stmts):
             vname = rv.get("variant") if rv.get("agg") == "adt" else None
             for f in rv["fields"]:
                 fo = f["op"]
+                if fo.get("k") == "const" and "int" in fo:
+                    nested[(pl["l"], vname, f["name"])] = fo["int"]
                 if fo.get("k") in ("copy", "move") and not fo["place"]["p"]:
                     v_ = env.get(fo["place"]["l"])
                     if v_ is not None:
